@@ -5,6 +5,7 @@ import (
 	"fmt"
 	"os"
 
+	"verifmc/checks/inputs"
 	"verifmc/checks/mpt"
 	"verifmc/checks/sc"
 	"verifmc/checks/wm"
@@ -20,9 +21,15 @@ var checks = map[string]func(rt.Tier) int{
 	"C06": sc.C06,
 	"C07": sc.C07,
 	"C09": wm.C09,
+	"C10": wm.C10,
 	"C11": wm.C11,
+	"C12": wm.C12,
 	"C13": wm.C13,
 	"C14": mpt.C14,
+	"C17": mpt.C17,
+	"C15": inputs.C15,
+	"C18": inputs.C18,
+	"C19": inputs.C19,
 }
 
 func main() {
@@ -34,6 +41,10 @@ func main() {
 	if !ok {
 		fmt.Fprintln(os.Stderr, "unknown check", os.Args[1])
 		os.Exit(2)
+	}
+	if os.Args[2] == "--replay" && len(os.Args) >= 4 {
+		rt.Replay = rt.LoadReplay(os.Args[3])
+		os.Exit(f(rt.Replay.Tier))
 	}
 	tier := rt.Tier(os.Args[2])
 	if tier != rt.Quick && tier != rt.Thorough {
